@@ -126,6 +126,51 @@ theorem authenticates_once (canAuth : Nat → Bool) (rest : List Resp) (reds : N
     run canAuth (.challenge :: rest) reds rq = { sent := [rq], result := .challengeReturned, redirects := reds } := by
   simp [run, h]
 
+/-- A token is only ever sent to a host the client holds (or can get) a ticket for, and never carried over
+    to the target of a redirect: every request of the call that carries a token goes to a host with
+    `canAuth`, provided the caller's own request did not bring one along for another host. -/
+theorem tokens_only_where_authorised (canAuth : Nat → Bool) (script : List Resp) (reds : Nat) (rq : Req)
+    (h0 : rq.token = true → canAuth rq.host = true) :
+    ∀ q ∈ (run canAuth script reds rq).sent, q.token = true → canAuth q.host = true := by
+  induction script generalizing reds rq with
+  | nil => intro q hq; simp [run] at hq; subst hq; exact h0
+  | cons r rest ih =>
+    cases r with
+    | netError => intro q hq; simp [run] at hq; subst hq; exact h0
+    | final c => intro q hq; simp [run] at hq; subst hq; exact h0
+    | redirect h keep code =>
+      intro q hq
+      simp only [run] at hq
+      cases ht : redirectTarget rq h keep with
+      | none => simp [ht] at hq; subst hq; exact h0
+      | some target =>
+        simp only [ht] at hq
+        split at hq
+        · simp at hq; subst hq; exact h0
+        · simp only [List.mem_cons] at hq
+          rcases hq with hq | hq
+          · subst hq; exact h0
+          · have htok : target.token = false := by
+              unfold redirectTarget at ht
+              split at ht
+              · split at ht
+                · cases ht
+                · cases ht; rfl
+              · split at ht <;> (cases ht; rfl)
+            exact ih (reds + 1) target (by simp [htok]) q hq
+    | challenge =>
+      intro q hq
+      simp only [run] at hq
+      split at hq
+      · simp at hq; subst hq; exact h0
+      · split at hq
+        · rename_i hc
+          simp only [List.mem_cons] at hq
+          rcases hq with hq | hq
+          · subst hq; exact h0
+          · exact ih reds { rq with token := true } (fun _ => hc) q hq
+        · simp at hq; subst hq; exact h0
+
 /-- the unrepaired loop: a server that keeps challenging makes the client send a request per challenge,
     without bound -/
 theorem v0_unbounded (n : Nat) (rq : Req) :
